@@ -27,6 +27,7 @@
 package main
 
 import (
+	"path/filepath"
 	"flag"
 	"fmt"
 	"os"
@@ -69,6 +70,8 @@ type item struct {
 	sample    string
 }
 
+var detRuns = 6
+
 func main() {
 	seed := flag.Int64("seed", 1, "random seed (all randomness derives from it)")
 	n := flag.Int("n", 1000, "number of grammars")
@@ -77,7 +80,10 @@ func main() {
 	lift := flag.String("lift", "", "lift single avoidances: comma-separated list of "+strings.Join(liftNames, ","))
 	out := flag.String("out", "/tmp/pvo.pvopt.out", "directory for failing cases")
 	jobs := flag.Int("j", 16, "parallel workers")
+	det := flag.Int("det", 6, "additional runs of the optimizer on identical copies (determinism)")
+	emit := flag.String("emit", "", "also write the text of every generated grammar to DIR/g<i>.peg (for whole-pipeline runs of the pigeon binary)")
 	flag.Parse()
+	detRuns = *det
 	usage := func(msg string) {
 		if msg != "" {
 			fmt.Fprintln(os.Stderr, "pvopt:", msg)
@@ -117,6 +123,17 @@ func main() {
 	}
 	close(next)
 	wg.Wait()
+	if *emit != "" {
+		if err := os.MkdirAll(*emit, 0o755); err != nil {
+			fmt.Fprintln(os.Stderr, "pvopt:", err)
+			os.Exit(2)
+		}
+		for i, it := range items {
+			if it.sample != "" {
+				os.WriteFile(filepath.Join(*emit, fmt.Sprintf("g%05d.peg", i)), []byte(it.sample), 0o644)
+			}
+		}
+	}
 	for i, it := range items {
 		rep.Seen(it.dump, it.nodes >= 3)
 		rep.Count("rules_per_grammar", fmt.Sprint(it.rules), 1)
@@ -327,6 +344,21 @@ func evaluate(seed int64, i, k int, lf lifts) (it *item) {
 	}
 	it.after, _ = pvpeg.CountKinds(g2)
 	it.removed = len(g.Rules) - len(g2.Rules)
+
+	// the optimizer is a function of the grammar: fresh copies give the same result (C19; a rebuild through a
+	// Go map would show as different member orders within a few repetitions)
+	dumpOpt := pvpeg.Dump(g2, true)
+	for rep := 0; rep < detRuns; rep++ {
+		g3 := copyGrammar(g)
+		if msg := optimize(g3, append([]string(nil), eps...)); msg != "" {
+			fail("optimize-panic", "on a repeated run: "+msg, nil)
+			return it
+		}
+		if d3 := pvpeg.Dump(g3, true); d3 != dumpOpt {
+			fail("nondeterministic-optimizer", fmt.Sprintf("run %d of ast.Optimize on an identical copy of the grammar gives another result:\n%s", rep+2, firstDiff(d3, dumpOpt)), nil)
+			return it
+		}
+	}
 
 	// static checks
 	entries := append([]string{g.Rules[0].Name.Val}, eps...)
